@@ -81,7 +81,7 @@ class Gen:
             specs = []
             for i in range(n):
                 u = rng.choice(self.pool)
-                e = rng.choice([1, 1, 1, 1, 2, 3, -1, -2, 2])
+                e = rng.choice([1, 1, 1, 1, 2, 3, -1, -2, 2, 1, 1, 0])
                 specs.append((u, e, False))
             if rng.random() < 0.15:
                 # the same unit twice in one signature (`m m`, `s | s`): exponents must add up
@@ -99,7 +99,7 @@ class Gen:
             else:
                 name, pre = self.spelling(u)
                 same[id(u)] = (name, pre)
-            t = name if e == 1 and rng.random() < 0.7 else "%s^%d" % (name, e)
+            t = name if e == 1 and rng.random() < 0.7 else "%s^%s%d" % (name, rng.choice(["", "", "+"]) if e >= 0 else "", e)
             cp = ".".join(str(ord(c)) for c in name)
             (inv_parts if inv else parts).append(t)
             (sx_i if inv else sx_u).append("(%s %d)" % (cp, e))
@@ -111,6 +111,10 @@ class Gen:
     def number(self):
         rng = self.rng
         r = rng.random()
+        if r < 0.1:
+            # a leading sign binds tighter than unit attachment: `-40 degC` is (-40) degC
+            v = rng.choice([1, 2, 5, 40, 273, 100])
+            return "-%d" % v, "(lit i:%d)" % -v, Fraction(-v), False
         if r < 0.5:
             v = rng.choice([0, 1, 2, 3, 5, 6, 10, 12, 60, 100, 1000, 7])
             return str(v), "(lit i:%d)" % v, Fraction(v), False
@@ -147,6 +151,13 @@ class Gen:
         if r < 0.9:
             a = self.tree(depth - 1)
             d = self.dim_of(a)
+            if rng.random() < 0.12:
+                # an offset unit (or the kelvin) as target, whatever the source's dimension
+                want = rng.choice(["degC", "degF", "kelvin"])
+                u = next(x for x in self.U["units"] if x["singular"] == want)
+                cp = ".".join(str(ord(c)) for c in u["singular"])
+                return dict(kind="conv", a=a, specs=[(u, None, 1)], text="((%s) to %s)" % (a["text"], u["singular"]),
+                            sx="(conv %s ((u (%s 1)) (i )))" % (a["sx"], cp))
             st, ssx, specs = self.sig(d if (d is not None and rng.random() < 0.8) else None)
             return dict(kind="conv", a=a, specs=specs, text="((%s) to %s)" % (a["text"], st), sx="(conv %s %s)" % (a["sx"], ssx))
         # tag a sub-expression (a number: fine; a quantity: error path)
